@@ -75,4 +75,4 @@ def run(prog, rep):
         if f.path.startswith(E.OPS):
             rep.functions.add(f.qual)
             sem.check_loop_protocol(rep, "C11-R3", prog, f, eng)
-    rep.floor("C11-R3", 3)
+    rep.floor("C11-R3", 2)
